@@ -61,9 +61,10 @@ def run(ctx):
     w = [m for m in prims.mutations(adv) if m.kind == 'assign' and show(m.path) == 'self.next_reconnect_period']
     ok = len(w) == 1 and re.match(r'^MqttClientImpl::clamp_reconnect_period\(self, (Mul::mul\(self\.next_reconnect_period, 2\)|Duration::saturating_mul\(self\.next_reconnect_period, 2\)|Option::unwrap_or\(Duration::checked_mul\(self\.next_reconnect_period, 2\), .*\))\)$', show(w[0].rv)) is not None
     ctx.ob(ok, 'next period := clamp(2 x current) (%s)' % (show(w[0].rv) if w else None), 'step|double', loc=adv.loc())
-    snap = [show(e) for _, e in var_inits(adv, 'reconnect_period')]
-    ctx.ob(snap == ['self.next_reconnect_period'] and w and adv.dominates(var_inits(adv, 'reconnect_period')[0][0], w[0].bb) or (snap == ['self.next_reconnect_period'] and w and var_inits(adv, 'reconnect_period')[0][0] == w[0].bb),
-           'the returned wait is based on the period before doubling', 'step|snapshot', loc=adv.loc())
+    from ..mir import var_init_sites, happens_before
+    snaps = var_init_sites(adv, 'reconnect_period')
+    ctx.ob(len(snaps) == 1 and show(snaps[0][2]) == 'self.next_reconnect_period' and len(w) == 1 and happens_before(adv, (snaps[0][0], snaps[0][1]), w[0].pos),
+           'the returned wait is the period before doubling (snapshot taken before the store)', 'step|snapshot', loc=adv.loc())
     rets = {}
     for b, e in prims.ret_variants(adv):
         for g in guard_strs(adv, b):
